@@ -173,22 +173,60 @@ package config
 //@ func Config.GetChecksForEntry [C08]
 
 // The enable decision. disabledByComment captures the answer of isDisabledForRule (rule-level control comments).
+// A control comment or a `disabled` entry targets a check instance in exactly three spellings: the check's name, its
+// String() (name with arguments), or name(+tag) for a tag of the check's Prometheus server.
+//@ spec func tagForm(name string, tag string) string = sprintf("%s(+%s)", name, tag)
+//@ spec func targets(c string, name string, cs string, tags []string) bool = c == name || c == cs || (exists t int :: 0 <= t && t < len(tags) && c == tagForm(name, tags[t]))
+
+// matches holds exactly the three spellings
+//@ spec func spellings(matches []string, name string, cs string, tags []string, n int) bool = len(matches) >= 2 && matches[0] == name && matches[1] == cs &&
+//@      (forall t int :: 0 <= t && t < n ==> contains(matches, tagForm(name, tags[t]))) &&
+//@      (forall m int :: 2 <= m && m < len(matches) ==> (exists t int :: 0 <= t && t < n && matches[m] == tagForm(name, tags[t])))
+//@ func isDisabledForRule [C07]
+//@   option elemlinks
+//@   ghost ds []comments.Disable
+//@   ghost ss []comments.Snooze
+//@   after call Only#1 set ds = result
+//@   after call Only#2 set ss = result
+//@   ensures result ==> (exists i int :: 0 <= i && i < len(ds) && targets(ds[i].Match, name, check.String(), promTags)) ||
+//@              (exists j int :: 0 <= j && j < len(ss) && targets(ss[j].Match, name, check.String(), promTags))
+//@   ensures (exists i int :: 0 <= i && i < len(ds) && targets(ds[i].Match, name, check.String(), promTags)) ==> result
+//@   loop 1 invariant 0 <= iter1 && iter1 <= len(promTags) && fresh(matches)
+//@   loop 1 invariant spellings(matches, name, check.String(), promTags, iter1)
+//@   loop 2 invariant 0 <= iter2 && iter2 <= len(ds)
+//@   loop 2 invariant spellings(matches, name, check.String(), promTags, len(promTags))
+//@   loop 2 invariant forall i int :: 0 <= i && i < iter2 ==> !targets(ds[i].Match, name, check.String(), promTags)
+//@   loop 3 invariant 0 <= iter3 && iter3 <= len(matches) && 1 <= iter2 && iter2 <= len(ds)
+//@   loop 3 invariant spellings(matches, name, check.String(), promTags, len(promTags))
+//@   loop 3 invariant forall i int :: 0 <= i && i < iter2 - 1 ==> !targets(ds[i].Match, name, check.String(), promTags)
+//@   loop 3 invariant forall m int :: 0 <= m && m < iter3 ==> matches[m] != ds[iter2-1].Match
+//@   loop 4 invariant 0 <= iter4 && iter4 <= len(ss)
+//@   loop 4 invariant spellings(matches, name, check.String(), promTags, len(promTags))
+//@   loop 4 invariant forall i int :: 0 <= i && i < len(ds) ==> !targets(ds[i].Match, name, check.String(), promTags)
+//@   loop 5 invariant 0 <= iter5 && iter5 <= len(matches) && 1 <= iter4 && iter4 <= len(ss)
+//@   loop 5 invariant spellings(matches, name, check.String(), promTags, len(promTags))
+//@   loop 5 invariant forall i int :: 0 <= i && i < len(ds) ==> !targets(ds[i].Match, name, check.String(), promTags)
+
 //@ func isEnabled [C08, C07]
 //@   ghost commentRes bool
 //@   ghost commentAsked bool
 //@   after call isDisabledForRule set commentRes = result0
 //@   after call isDisabledForRule set commentAsked = true
 //@   ensures check.Meta().AlwaysEnabled ==> result
-//@   ensures !check.Meta().AlwaysEnabled && (exists i int :: 0 <= i && i < len(disabledChecks) && (disabledChecks[i] == name || disabledChecks[i] == check.String())) ==> !result
+//@   ensures !check.Meta().AlwaysEnabled && (exists i int :: 0 <= i && i < len(disabledChecks) && targets(disabledChecks[i], name, check.String(), promTags)) ==> !result
 //@   ensures !check.Meta().AlwaysEnabled && len(enabledChecks) > 0 && (forall i int :: 0 <= i && i < len(enabledChecks) ==> enabledChecks[i] != name) ==> !result
 //@   ensures !check.Meta().AlwaysEnabled && !locked ==> commentAsked && (commentRes ==> !result)
 //@   ensures locked ==> !commentAsked
-//@   ensures !check.Meta().AlwaysEnabled && (locked || !commentRes) && len(disabledChecks) == 0 &&
+//@   ensures !check.Meta().AlwaysEnabled && (locked || !commentRes) && (forall i int :: 0 <= i && i < len(disabledChecks) ==> !targets(disabledChecks[i], name, check.String(), promTags)) &&
 //@              (len(enabledChecks) == 0 || (exists i int :: 0 <= i && i < len(enabledChecks) && enabledChecks[i] == name)) ==> result
-//@   loop 1 invariant 0 <= iter && iter <= len(disabledChecks)
-//@   loop 1 invariant forall i int :: 0 <= i && i < iter ==> disabledChecks[i] != name && disabledChecks[i] != check.String()
-//@   loop 3 invariant 0 <= iter && iter <= len(enabledChecks)
-//@   loop 3 invariant forall i int :: 0 <= i && i < iter ==> enabledChecks[i] != name
+//@   loop 1 invariant 0 <= iter1 && iter1 <= len(disabledChecks)
+//@   loop 1 invariant forall i int :: 0 <= i && i < iter1 ==> !targets(disabledChecks[i], name, check.String(), promTags)
+//@   loop 2 invariant 0 <= iter2 && iter2 <= len(promTags) && 1 <= iter1 && iter1 <= len(disabledChecks)
+//@   loop 2 invariant c != name && c != check.String() && c == disabledChecks[iter1-1]
+//@   loop 2 invariant forall i int :: 0 <= i && i < iter1 - 1 ==> !targets(disabledChecks[i], name, check.String(), promTags)
+//@   loop 2 invariant forall t int :: 0 <= t && t < iter2 ==> c != tagForm(name, promTags[t])
+//@   loop 3 invariant 0 <= iter3 && iter3 <= len(enabledChecks)
+//@   loop 3 invariant forall i int :: 0 <= i && i < iter3 ==> enabledChecks[i] != name
 
 // The per-entry decision for one registered check: the state gate, file-level disables, every matching rule {} block
 // (a disable in any matching block wins, otherwise an enable in some matching block wins over the global lists),
